@@ -16,7 +16,7 @@ RULE = ('shard cases = (source kind, n, shard-count chain k1[,k2[,k3]], per-leve
         'into possibly-empty sub-sequences, container kind, read-ahead size) enumerated for n<=5/8 with every index '
         'and every (start, stop) slice checked against a Python list; non-trivial = remainder != 0, k > n, depth >= 2, '
         'an offset > 0, an empty sub-sequence, or a negative index; distinct = distinct canonical case JSON'
-        '; also: index-only sources, iterator checkpoint/restore for every shard kind, numpy integer shard indices, sources of up to 520 elements')
+        '; also: sub-shards of offset shards partition them, merged groups and slice-streaming sources as sub-sequences, index-only sources, iterator checkpoint/restore for every shard kind, numpy integer shard indices, sources of up to 520 elements')
 ASSUMPTIONS = [
     'the reference for MergedSequences is the Python list of the concatenated elements (indexing, slicing without step, iteration, len)',
     'offsets passed to shard() lie in 0..len(shard) (what SequenceIterator.state produces)',
@@ -223,7 +223,12 @@ def run_offset_chain(case):
   root = _guard(lambda: _make_source(kind, n, case.get('splits', [])), 'building source')
   s, name = root, 'root'
   for i, k, off in case['chain']:
-    plain = _guard(lambda: _elements(s.shard(i, k)), f'{name}.shard({i},{k})')
+    # the k shards of this (possibly offset) shard partition exactly what it holds, in order
+    parent = _guard(lambda: _elements(s), f'iterating {name}')
+    parts = [_guard(lambda j=j: _elements(s.shard(j, k)), f'{name}.shard({j},{k})') for j in range(k)]
+    check([x for part in parts for x in part] == parent, 'not-a-partition',
+          f'{name} holds {parent} but its {k} shards hold {parts}')
+    plain = parts[i]
     off = min(off, len(plain))
     nxt = _guard(lambda: s.shard(i, k, off), f'{name}.shard({i},{k},{off})')
     name = f'{name}.shard({i},{k},{off})'
@@ -271,7 +276,29 @@ def _container(kind, vals):
     return np.array(vals, dtype=np.int64)
   if kind == 'range':
     return range(vals[0], vals[0] + len(vals)) if vals else range(0)
+  if kind == 'merged':
+    # an already merged group as a sub-sequence: its slices are iterators (no len())
+    from ml_metrics._src.utils import iter_utils  # pylint: disable=g-import-not-at-top
+    h = len(vals) // 2
+    return iter_utils.MergedSequences([list(vals[:h]), list(vals[h:])])
+  if kind == 'lazy':
+    return _LazySliceSeq(vals)
   raise ValueError(kind)
+
+
+class _LazySliceSeq:
+  """A random-access source that streams its slices: seq[a:b] is a generator."""
+
+  def __init__(self, vals):
+    self._vals = list(vals)
+
+  def __len__(self):
+    return len(self._vals)
+
+  def __getitem__(self, i):
+    if isinstance(i, slice):
+      return (v for v in self._vals[i])
+    return self._vals[i]
 
 
 def _compositions(n, m):
@@ -346,7 +373,7 @@ def strat_merged(tier):
     n = draw(st.integers(0, nmax))
     m = draw(st.integers(1, 8))
     cuts = sorted(draw(st.lists(st.integers(0, n), min_size=m - 1, max_size=m - 1)))
-    kinds = draw(st.lists(st.sampled_from(['list', 'tuple', 'array', 'range']), min_size=1, max_size=3))
+    kinds = draw(st.lists(st.sampled_from(['list', 'tuple', 'array', 'range', 'merged', 'lazy']), min_size=1, max_size=3))
     ra = draw(st.sampled_from([0, 1, 2, 3, 7, 64, 100]))
     idx = st.integers(-n - 3, n + 3)
     indices = draw(st.lists(idx, max_size=12))
